@@ -483,8 +483,12 @@ func run(id, tier string) int {
 					}
 				}
 			}
-			if r.Rule != "" {
-				merged.Rule = r.Rule
+			if r.Rule != "" && !strings.Contains(merged.Rule, r.Rule) {
+				// one rule per test function of the property's package
+				if merged.Rule != "" {
+					merged.Rule += " || "
+				}
+				merged.Rule += r.Rule
 			}
 			for _, a := range r.Assumptions {
 				if !contains(merged.Assumptions, a) {
